@@ -13,7 +13,7 @@
      Model/OdoStream.v row_loop / rows_N / rows_V / rows_VB: COBOL_EBCDIC_Sheet.set_schema + row_iter over the RECFM
                        readers of Model/Recfm.v; a row = (buffer handed to Row(), navigator built on it).
    [dcount] (decoding of a counter field) and the element type of records are arbitrary.
-   The flat family is proved completely, file framing included (C06_stream_*).  The general nested shapes (ODO tables
+   The flat family is proved completely, file framing included (theorems C06_stream_N, _V, _VB, _F).  The general nested shapes (ODO tables
    inside non-repeated groups, sibling groups, next to REDEFINES unions) have the layout theorem C06_layout at the end of
    this file (Proofs/LayoutOdoP.v, extending C01's development); their composition with the file readers, and ODO inside a
    table or a REDEFINES member, are covered by the correspondence run only. *)
